@@ -79,7 +79,11 @@ func (t *WebsocketTransport) Connect() (string, error) {
 	t.wsConn = wsConn
 	t.startReader()
 
-	t.decoder = xml.NewDecoder(bufio.NewReaderSize(t, maxPacketSize))
+	// The decoder reads this connection only. Read looks at the queue and the context of the transport it is called
+	// on, and the next Connect replaces them: through a copy, a reader left over from this connection ends with it
+	// instead of taking frames of the next one.
+	conn := *t
+	t.decoder = xml.NewDecoder(bufio.NewReaderSize(&conn, maxPacketSize))
 	t.decoder.CharsetReader = t.Config.CharsetReader
 
 	return t.StartStream()
